@@ -2,7 +2,7 @@
     files of coq/C14 and followed by Print Assumptions. *)
 From Coq Require Import ZArith QArith List Bool Reals.
 From Gen Require Import GenIAPWS GenReads GenTraced.
-From P Require Import Chain Expr Tables.
+From P Require Import Chain Expr SpecTables Tables TablesOk.
 Import ListNotations.
 
 (** every multiplication-chain table of the current IAPWS97.py passes the boolean check
@@ -42,3 +42,9 @@ Print Assumptions used_powers_are_defined.
 Theorem array_lengths_agree : lengths_ok_b = true.
 Proof. exact lengths_ok_true. Qed.
 Print Assumptions array_lengths_agree.
+
+(** every coefficient of the current source is the double nearest to the reference decimal and
+    every exponent is the reference exponent (reference snapshot of the IF97 tables, SpecTables.v) *)
+Theorem tables_match_reference : tables_match_reference_b = true.
+Proof. exact tables_match_reference_true. Qed.
+Print Assumptions tables_match_reference.
